@@ -141,7 +141,15 @@ def load(case):
         line["res"], line["file"] = r, f
         if idx % 3 == 0:
             from scoda.midi.midi_file import MidiFile
-            loaded = Sequence.sequences_load(midi_file=MidiFile.open(path), track_indices=[list(g) for g in groups],
+            mfo = MidiFile.open(path)
+            if idx % 2 == 0:
+                # the same MidiFile object was converted before, with another grouping: conversions must not interfere
+                try:
+                    Sequence.sequences_load(midi_file=mfo, track_indices=[[i] for i in range(len(tracks))],
+                                            meta_track_indices=[0])
+                except Exception:
+                    pass
+            loaded = Sequence.sequences_load(midi_file=mfo, track_indices=[list(g) for g in groups],
                                              meta_track_indices=list(meta), target_meta_track_index=target)
         else:
             loaded = Sequence.sequences_load(file_path=path, track_indices=[list(g) for g in groups],
@@ -196,8 +204,15 @@ def random_track(rng, ch, nmax=8, sig=True, ones=False):
             evs.append({"ty": "ks", "k": rng.choice(KEYS), "dt": dt})
         else:
             evs.append({"ty": "text", "dt": dt})
+    dangling = rng.random() < .2          # an ill-formed track: one note is never closed / a note-off closes nothing
     for c, p in sorted(open_):
+        if dangling:
+            dangling = False
+            continue
         evs.append({"ty": "off", "p": p, "ch": c, "dt": rng.choice([0, 1, 2, 9]), "v": 0})
+    if rng.random() < .1:
+        evs.insert(rng.randrange(len(evs) + 1), {"ty": "off", "p": rng.choice([60, 61, 62, 72]), "ch": rng.choice(chans),
+                                                 "dt": rng.choice([0, 1, 5]), "v": 0, "as_on0": rng.random() < .5})
     return evs
 
 
